@@ -35,6 +35,7 @@ type TraceEvent struct {
 	Cbs     []CbRec    `json:"cbs"`
 	St      *ProjRec   `json:"st,omitempty"`
 	Closed  bool       `json:"closed,omitempty"`
+	NoSt    bool       `json:"nost"` // the state projection was not observed for this step
 	Note    string     `json:"note,omitempty"`
 }
 
@@ -63,11 +64,12 @@ func walkCmds(cfg CfgRec) []CmdRec {
 		add(CmdRec{C: "RCPT", A: v})
 	}
 	add(CmdRec{C: "DATA", A: "arg"})
+	add(CmdRec{C: "DATA", A: "small", P: "all-panic"})
 	for _, size := range []string{"small", "big"} {
 		if size == "big" && cfg.MaxBytes == 0 {
 			continue
 		}
-		for _, p := range []string{"all-acc", "all-rej", "none-acc", "none-rej"} {
+		for _, p := range []string{"all-acc", "all-rej", "none-acc", "none-rej", "some-acc", "some-rej"} {
 			add(CmdRec{C: "DATA", A: size, P: p})
 		}
 	}
@@ -81,7 +83,7 @@ func walkCmds(cfg CfgRec) []CmdRec {
 					add(CmdRec{C: "BDAT", A: "badlast", N: n})
 				}
 			}
-			for _, p := range []string{"acc", "rej", "early"} {
+			for _, p := range []string{"acc", "rej", "early", "panic"} {
 				add(CmdRec{C: "BDAT", N: n, L: l, P: p})
 			}
 		}
